@@ -1,0 +1,15 @@
+//go:build verif
+
+// Verification hooks (build tag "verif" only; never compiled into normal builds).
+
+package tls
+
+import "reflect"
+
+// VerifTypes returns the reflect.Types of unexported wire structures, for the
+// verification translators.
+func VerifTypes() map[string]reflect.Type {
+	return map[string]reflect.Type{
+		"dsaSig": reflect.TypeOf(dsaSig{}),
+	}
+}
